@@ -5,7 +5,7 @@ sys.path.insert(0,'/verif'); warnings.filterwarnings('ignore')
 import torch
 torch.set_num_threads(1)
 from sim import core
-m = core.get_machine(sys.argv[1]); tier='quick'
+m = core.get_machine(sys.argv[1]); tier=(sys.argv[4] if len(sys.argv)>4 else 'quick')
 agg=collections.Counter(); nviol=0; seen={}
 for idx in range(int(sys.argv[2]), int(sys.argv[3])):
     h,out = core.run_one(m, tier, 0, idx)
